@@ -17,9 +17,15 @@ What lives here
   inline to completion, so between two loop handles no sqlite transaction is open).
 """
 import asyncio
+import contextvars
 import os
 
 from . import env
+
+# which build a piece of product code is running for: a context variable, so that tasks the product
+# itself spawns on behalf of a build (e.g. a shielded inner selection task) are attributed to it too
+CURRENT_BUILD = contextvars.ContextVar('simverif_current_build', default=None)
+_IN_SELECT = contextvars.ContextVar('simverif_in_select', default=False)
 
 DUST = 1000                      # lbry.wallet.constants.DUST (restated: the oracle must not follow a mutated tree)
 BASE_SIZE = 10                   # 4 version + 1 input count + 1 output count + 4 locktime (<= 252 ins/outs)
@@ -168,6 +174,14 @@ class Build:
         self.state = 'new'       # new | running | held | released | broadcast | failed
         self.started = None
         self.finished = None
+        self.kind = (spec or {}).get('kind', 'create')    # create | fund_everything | fund_amount
+        self.end = None          # how it ended, for attribution: released | broadcast | failed_insufficient |
+        #                          failed_other | broadcast_refused | broadcast_refused_released | cancelled
+        self.task = None
+        self.jobs = 0            # executor jobs submitted on behalf of this build (counted by the property)
+        self.cancel_expected = False
+        self.cancelled = False
+        self.cancel_during_reserve = False
 
 
 class WalletSim:
@@ -188,7 +202,9 @@ class WalletSim:
         self.utxo_seq = 0
         self.on_select_return = None     # fn(build, call, outpoints)   (C14 held map)
         self.on_release_call = None      # fn(build, outpoints)
+        self.on_reserve_return = None    # fn(build, outpoints): ledger.reserve_outputs called outside a selection
         self.in_flight = 0
+        self.net_log = []                # (build id, 'accepted' | 'refused') of the stub network
 
     # ---- construction ---------------------------------------------------------------------------
     async def open(self):
@@ -248,23 +264,31 @@ class WalletSim:
         self._wrap_ledger()
         return self
 
+    def current_build(self):
+        b = CURRENT_BUILD.get()
+        return b if b is not None else self.task_build.get(asyncio.current_task())
+
     def _wrap_ledger(self):
         ledger = self.ledger
         orig_select = ledger.get_spendable_utxos
         orig_release = ledger.release_outputs
+        orig_reserve = ledger.reserve_outputs
         sim = self
 
         async def observed_select(amount, funding_accounts, min_amount=1):
-            b = sim.task_build.get(asyncio.current_task())
+            b = sim.current_build()
             call = {'amount': amount, 'waited': ledger._utxo_reservation_lock.locked(),
                     'returned': None, 'exc': None, 't0': sim.loop.elapsed()}
             if b is not None:
                 b.calls.append(call)
+            token = _IN_SELECT.set(True)
             try:
                 res = await orig_select(amount, funding_accounts, min_amount)
             except BaseException as e:  # noqa
                 call['exc'] = type(e).__name__
                 raise
+            finally:
+                _IN_SELECT.reset(token)
             ops = [s.txo.id for s in res]
             call['returned'] = ops
             if b is not None:
@@ -276,12 +300,45 @@ class WalletSim:
         def observed_release(txos):
             txos = list(txos)
             if sim.on_release_call is not None:
-                b = sim.task_build.get(asyncio.current_task())
-                sim.on_release_call(b, [t.id for t in txos if t is not None])
+                sim.on_release_call(sim.current_build(), [t.id for t in txos if t is not None])
             return orig_release(txos)
+
+        async def observed_reserve(txos):
+            # Ledger.get_spendable_utxos reserves through this method too: those calls belong to the
+            # selection call around them; only a caller that selects by itself (Account.fund) is reported
+            txos = list(txos)
+            inside = _IN_SELECT.get()
+            res = await orig_reserve(txos)
+            if not inside:
+                b = sim.current_build()
+                ops = [t.id for t in txos]
+                if b is not None:
+                    b.touched.update(ops)
+                if sim.on_reserve_return is not None:
+                    sim.on_reserve_return(b, ops)
+            return res
 
         ledger.get_spendable_utxos = observed_select
         ledger.release_outputs = observed_release
+        ledger.reserve_outputs = observed_reserve
+
+        # the only network call a build makes: broadcast.  The stub answers after a scenario-given delay
+        # with acceptance or with the refusal a server sends (RPCError); recording the accepted
+        # transaction the way sync would is done by the caller (`broadcast`).
+        from lbry.wallet.rpc.jsonrpc import RPCError
+
+        async def stub_broadcast(raw_hex):
+            b = sim.current_build()
+            spec = b.spec if b is not None else {}
+            delay = float(spec.get('net_delay') or 0.0)
+            if delay > 0:
+                await asyncio.sleep(delay)
+            if spec.get('refuse'):
+                sim.net_log.append((b.bid if b is not None else -1, 'refused'))
+                raise RPCError(1, 'the transaction was rejected by network rules.')
+            sim.net_log.append((b.bid if b is not None else -1, 'accepted'))
+            return 'ok'
+        ledger.network.broadcast = stub_broadcast
 
     # ---- synchronous read-only views of the database -------------------------------------------------
     def sql(self, query, params=()):
@@ -478,7 +535,7 @@ class WalletSim:
         b.change = int(spec.get('change', b.funding[0])) % self.n_accounts
         b.pre = self.pick_pre(spec, set(b.funding))
         if b.pre:
-            await self.ledger.reserve_outputs([u.txo for u in b.pre])
+            await self.db.reserve_outputs([u.txo for u in b.pre])    # what Ledger.reserve_outputs does
             for u in b.pre:
                 u.held_by = b.bid
                 b.touched.add(u.op)
@@ -500,6 +557,8 @@ class WalletSim:
         sign = bool(spec.get('sign', True))
         task = asyncio.current_task()
         self.task_build[task] = b
+        CURRENT_BUILD.set(b)
+        b.task = task
         b.state = 'running'
         b.started = self.loop.elapsed()
         self.in_flight += 1
@@ -532,9 +591,17 @@ class WalletSim:
                 tx = await Transaction.create(inputs, outputs, funding, change, sign=sign)
             b.tx = tx
             b.state = 'held'
-        except Exception as e:  # noqa  (CancelledError is never generated)
+        except Exception as e:  # noqa
             b.exc = e
             b.state = 'failed'
+        except asyncio.CancelledError as e:
+            if not b.cancel_expected:      # only a cancellation the scenario asked for is an outcome
+                raise
+            b.exc = e
+            b.state = 'failed'
+            b.cancelled = True
+            if hasattr(task, 'uncancel'):
+                task.uncancel()
         finally:
             self.in_flight -= 1
             b.finished = self.loop.elapsed()
@@ -558,15 +625,78 @@ class WalletSim:
                 if u.held_by == b.bid:
                     u.held_by = None
 
+    def prepare_fund(self, b):
+        """A build that is a real Account.fund call (kind fund_everything / fund_amount)."""
+        spec = b.spec
+        b.funding = [int((spec.get('funding') or [0])[0]) % self.n_accounts]
+        b.change = int(spec.get('change', b.funding[0])) % self.n_accounts
+        b.out_specs, b.out_amounts = [], []
+        self.builds[b.bid] = b
+
+    async def account_fund(self, b):
+        """Run the real Account.fund(to_account, everything=True | amount=..., broadcast=...)."""
+        spec = b.spec
+        src, dst = self.accounts[b.funding[0]], self.accounts[b.change]
+        broadcast = bool(spec.get('broadcast'))
+        task = asyncio.current_task()
+        self.task_build[task] = b
+        CURRENT_BUILD.set(b)
+        b.task = task
+        b.state = 'running'
+        b.started = self.loop.elapsed()
+        self.in_flight += 1
+        try:
+            if b.kind == 'fund_everything':
+                tx = await src.fund(dst, everything=True, broadcast=broadcast)
+            else:
+                amount = spec.get('amount') or ['abs', 1000]
+                tx = await src.fund(dst, amount=max(1, int(amount[1])), outputs=max(1, int(spec.get('n_out', 1))),
+                                    broadcast=broadcast)
+            b.tx = tx
+            b.state = 'held' if broadcast else 'released'     # a preview is released by Account.fund itself
+        except Exception as e:  # noqa
+            b.exc = e
+            b.state = 'failed'
+        finally:
+            self.in_flight -= 1
+            b.finished = self.loop.elapsed()
+        if b.tx is not None:
+            try:
+                b.parsed = parse_tx(b.tx.raw)
+            except Exception as e:  # noqa
+                b.parse_error = e
+        return b
+
+    async def broadcast_or_release(self, b):
+        """What the daemon does with a built transaction: Ledger.broadcast_or_release over the stub network.
+        -> True accepted (still to be recorded with `broadcast`), False refused (the product released it)."""
+        from lbry.wallet.rpc.jsonrpc import RPCError
+        if b.state != 'held':
+            return None
+        token = CURRENT_BUILD.set(b)
+        try:
+            await self.ledger.broadcast_or_release(b.tx)
+        except RPCError:
+            for u in self.utxos.values():
+                if u.held_by == b.bid:
+                    u.held_by = None
+            b.state = 'released'
+            return False
+        finally:
+            CURRENT_BUILD.reset(token)
+        return True
+
     async def release(self, b):
         if b.state != 'held':
             return False
         task = asyncio.current_task()
         before = self.task_build.get(task)
         self.task_build[task] = b
+        token = CURRENT_BUILD.set(b)
         try:
             await self.ledger.release_tx(b.tx)
         finally:
+            CURRENT_BUILD.reset(token)
             if before is None:
                 self.task_build.pop(task, None)
             else:
